@@ -707,6 +707,12 @@ class ExprMixin:
             if ok and p == "..":
                 return [(st, self.P_PARDIR(b.py[1].t))]
             raise Unsupported("membership test on Path.parts other than '..'")
+        if isinstance(b, VConst) and isinstance(b.py, tuple) and b.py and b.py[0] == "global" and isinstance(a, (VClass, VExcClass)):
+            # membership of a class in a module-level dict literal keyed by classes (exceptions.WARNINGS)
+            mod = load.get_module(b.py[1])
+            lit = mod.consts.get(b.py[2])
+            if isinstance(lit, ast.Dict):
+                return [(st, z3.BoolVal(self.class_table_lookup(mod, lit, a) is not None))]
         if isinstance(b, VConst) and isinstance(b.py, _Frozen):
             ok, p = concrete(a)
             if ok:
@@ -970,6 +976,10 @@ class ExprMixin:
                             nn.extend(self.set_item(s2, ref, k, v) if o is None else [(s2, o)])
                         rs = nn
                     out.extend((s2, o if o is not None else ref) for s2, o in rs)
+                elif kind == "gen":
+                    # a generator expression over a concrete spine, evaluated eagerly (its element
+                    # and filter expressions are evaluated for every item, in order): an iterator
+                    out.append((s1, s1.alloc(HCIter(list(acc)))))
                 else:
                     out.append((s1, s1.alloc(HList(items=acc))))
             return out
